@@ -662,6 +662,16 @@ def check_inputs(ctx, rule='CFG-10'):
             continue
         okk = len(out) == len(expect) and all(isinstance(o, Obj) and all(same_value(o.attrs.get(k_), e.attrs.get(k_)) for k_ in e.attrs if k_ != 'meta') and same_meta(o.attrs.get('meta'), meta) for o, e in zip(out, expect))
         ctx.expect(okk, rule, inst, loc(ifi), 'iterates over the results given, in order, with their metadata', 'iteration gives %d objects that are not the results given' % len(out), 'input-iter')
+        if len(out) == 2 and okk:
+            # results that came with one metadata object go to one output: write() takes the second only if its metadata equals the first's - by the class's own
+            # __eq__, which falls back on identity for whatever has no __eq__ of its own (the extinction law)
+            m0, m1 = out[0].attrs.get('meta'), out[1].attrs.get('meta')
+            eq_ = repo.find_member(m0.cls, '__eq__') if isinstance(m0, Obj) and isinstance(m1, Obj) and m0.cls is not None else None
+            same_ = True if m0 is m1 else (I.call(eq_[1], [m0], selfv=m1) if eq_ is not None and eq_[0] == 'method' else False)
+            same_ = I._truth(same_) if not isinstance(same_, bool) else same_
+            if same_ is not None:
+                ctx.expect(same_, rule, '%s: the results handed out can be written to one file' % inst, loc(ifi), 'their metadata compare equal, as write() requires of every record after the first',
+                           'the metadata of the second result handed out does not compare equal to the first\'s (a copy of an object without __eq__ equals only itself): write() refuses it', 'meta-not-equal')
         fresh = all(o is not e for o, e in zip(out, expect))
         ctx.expect(fresh, 'EFF-2', '%s: iteration hands out copies' % inst, loc(ifi), 'each object yielded is a copy: selecting fits on it leaves the caller\'s result as it was',
                    'yields the caller\'s own result object: consumers that select fits (keep) modify it', 'yields-original')
